@@ -328,6 +328,7 @@ def build_c(unit, units, outdir, defines=()):
             if g not in gl:
                 gl.append(g)
                 parts.append(global_define(units[n]['tu'], g, types))
+    parts.append(types.typedefs(scalar_elems=True))
     parts += rec_txt
     seen_types = set()
     for n in allu:
@@ -340,7 +341,7 @@ def build_c(unit, units, outdir, defines=()):
             fw = 'typedef struct %s %s;' % (ps, ps)
             if fw not in parts:
                 parts.append(fw)
-    parts.append(types.typedefs())
+    parts.append(types.typedefs(scalar_elems=False))
     for n in allu:
         for ps in units[n].get('partial_structs', []):
             shared['selfs'].setdefault(ps, OrderedDict())
